@@ -198,7 +198,7 @@ theorem valid_of_B (hinv : Inv N g v sub (w :: rest) nsub) (hv : Valid g v sub r
 
 end split
 
-theorem subset_of_full {S sub : List Nat} (hS : S.Nodup) (hsub : sub.Nodup)
+theorem subset_of_full {S sub : List Nat} (_hS : S.Nodup) (hsub : sub.Nodup)
     (hlen : sub.length = S.length) (hin : ∀ x ∈ sub, x ∈ S) : ∀ x ∈ S, x ∈ sub := by
   intro x hx
   apply Decidable.byContradiction
@@ -232,13 +232,13 @@ theorem extend_spec (hgnd : ∀ w, (g w).Nodup) :
         · intro x hx hns; exact absurd ((h x).mpr hx) hns
         · intro x hx; exact ReachIn.base ((h x).mpr hx)
     constructor
-    · intro hv; simp [List.countP_cons, hiff.mp hv]
+    · intro hv; simp [hiff.mp hv]
     · intro hv
       have : sameSet S sub = false := by
         cases hs : sameSet S sub with
         | false => rfl
         | true => exact absurd (hiff.mpr hs) hv
-      simp [List.countP_cons, this]
+      simp [this]
   | case2 sub nsub hlt =>
     intro hinv S hS hlen
     rw [extend]; simp only [hlt, if_false]
